@@ -59,6 +59,30 @@ type ptOpts struct {
 }
 
 func genSorterStress(r *RNG) *Trace {
+	if r.Chance(0.004) {
+		// byte runs of more than 64 KiB, three of them of different lengths,
+		// behind the same context (a sorter that stops comparing somewhere)
+		var in []byte
+		c, d := byte(r.Intn(256)), byte(r.Intn(256))
+		for i := 0; i < 3; i++ {
+			for k := r.Range(65537, 72000); k > 0; k-- {
+				in = append(in, c)
+			}
+			in = append(in, d)
+		}
+		for k := r.Range(100, 72000); k > 0; k-- {
+			in = append(in, c+1)
+		}
+		spec := ParserSpec{Type: "OSAP", BufferSize: len(in) + r.Intn(64), BlockSize: r.Pick(0, 1<<16)}
+		spec.WindowSize = spec.BufferSize
+		t := &Trace{World: "parser", P: &spec, Input: in}
+		t.Note = "sorter-stress long runs"
+		t.Ops = append(t.Ops, Op{K: r.pickStr("Write", "Reset"), N: len(in)})
+		for i := len(in)/(1<<16) + 3; i > 0; i-- {
+			t.Ops = append(t.Ops, Op{K: "Parse", Re: true})
+		}
+		return t
+	}
 	typ := "OSAP"
 	if r.Chance(0.3) {
 		typ = "GSAP"
@@ -954,7 +978,7 @@ func genLongMatch(r *RNG, types []string) *Trace {
 	B := r.Pick(0, 1<<16, 1<<16, 1<<16+1, 1<<17, L+5, 2*L, 4096)
 	var in []byte
 	dist := L // distance of the long repeat
-	layout := r.Intn(7)
+	layout := r.Intn(8)
 	switch layout {
 	case 0: // adjacent repeat
 		in = append(append(append(in, pre...), X...), X...)
@@ -991,6 +1015,14 @@ func genLongMatch(r *RNG, types []string) *Trace {
 			in = append(in, c)
 		}
 		dist = 1
+	case 6: // a phrase twice, then more than 64 KiB in which nothing repeats, all in one block
+		ph := genInput(r, r.Pick(8, 40, 300), "iid256")
+		in = append(append(append(append(in, pre...), ph...), genInput(r, r.Pick(0, 5, 1000), "iid256")...), ph...)
+		in = append(in, genInput(r, r.Pick(65536, 65537, 70000, 100000), "iid256")...)
+		if B != 0 && B < len(in) {
+			B = r.Pick(0, len(in), 1<<17)
+		}
+		dist = 0
 	case 5: // a long periodic stretch: one self-overlapping match with an offset that is no power of two
 		unit := genInput(r, r.Pick(3, 5, 7, 600, 1000, 65537, 70000), "iid256")
 		in = append(in, pre...)
@@ -1034,7 +1066,14 @@ func genLongMatch(r *RNG, types []string) *Trace {
 		bl = 128 << 10
 	}
 	for i := n/bl + 3; i > 0; i-- {
-		t.Ops = append(t.Ops, Op{K: "Parse", Re: r.Chance(0.8)})
+		op := Op{K: "Parse", Re: r.Chance(0.8)}
+		if r.Chance(0.3) {
+			op.F = lz.NoTrailingLiterals
+			if i > 1 {
+				t.Ops = append(t.Ops, op) // the handed back tail needs a call of its own
+			}
+		}
+		t.Ops = append(t.Ops, op)
 	}
 	return t
 }
